@@ -282,6 +282,59 @@ func noteTicketHelpers(m *macaroon.Macaroon, c3 *macaroon.Caveat3P) {
 	}
 }
 
+// noteUndischarged: AllThirdPartyTickets(existing discharges) lists, per location, exactly the tickets of the token's
+// third-party caveats that none of the decodable discharges answers; the deprecated ThirdPartyTickets gives the single
+// ticket per location and refuses a token with two for one location
+func noteUndischarged(m *macaroon.Macaroon, ds [][]byte) {
+	if TicketHelperFail != "" {
+		return
+	}
+	answered := map[string]bool{}
+	for _, d := range ds {
+		if n, err := macaroon.DecodeNonce(d); err == nil {
+			answered[string(n.KID)] = true
+		}
+	}
+	want := map[string][][]byte{}
+	for _, c := range macaroon.GetCaveats[*macaroon.Caveat3P](&m.UnsafeCaveats) {
+		if !answered[string(c.Ticket)] {
+			want[c.Location] = append(want[c.Location], c.Ticket)
+		}
+	}
+	got := m.AllThirdPartyTickets(ds...)
+	if len(got) != len(want) {
+		TicketHelperFail = fmt.Sprintf("AllThirdPartyTickets lists %d locations, %d have undischarged tickets", len(got), len(want))
+		return
+	}
+	dup := false
+	for loc, w := range want {
+		g := got[loc]
+		if len(g) != len(w) {
+			TicketHelperFail = fmt.Sprintf("AllThirdPartyTickets(%q) = %d tickets, want %d", loc, len(g), len(w))
+			return
+		}
+		for i := range w {
+			if !bytes.Equal(g[i], w[i]) {
+				TicketHelperFail = fmt.Sprintf("AllThirdPartyTickets(%q)[%d] is not the caveat's ticket", loc, i)
+				return
+			}
+		}
+		dup = dup || len(w) > 1
+	}
+	single, err := m.ThirdPartyTickets(ds...)
+	if dup != (err != nil) {
+		TicketHelperFail = fmt.Sprintf("ThirdPartyTickets: error=%v although some location has two undischarged tickets=%v", err, dup)
+		return
+	}
+	if err == nil {
+		for loc, w := range want {
+			if !bytes.Equal(single[loc], w[0]) {
+				TicketHelperFail = fmt.Sprintf("ThirdPartyTickets()[%q] is not that location's ticket", loc)
+			}
+		}
+	}
+}
+
 func noteSeals(m *macaroon.Macaroon) {
 	for _, c := range m.UnsafeCaveats.Caveats {
 		c3, ok := c.(*macaroon.Caveat3P)
@@ -521,10 +574,23 @@ func (e *Env) Step(o Op) []int64 {
 		if !ok || !ok2 {
 			return nil
 		}
+		before := len(d.UnsafeCaveats.Caveats)
+		var err error
 		if o.Src%2 == 1 {
-			return []int64{b2i(d.Bind(rawEncode(p)) == nil)} // the byte-level entry point
+			err = d.Bind(rawEncode(p)) // the byte-level entry point
+		} else {
+			err = d.BindToParentMacaroon(p)
 		}
-		return []int64{b2i(d.BindToParentMacaroon(p) == nil)}
+		// the binding id is the first half of SHA-256(parent tail), computed here without the library
+		if err == nil && len(d.UnsafeCaveats.Caveats) == before+1 && TicketHelperFail == "" {
+			if bc, ok := d.UnsafeCaveats.Caveats[before].(*macaroon.BindToParentToken); ok {
+				h := sha256.Sum256(p.Tail)
+				if !bytes.Equal([]byte(*bc), h[:16]) {
+					TicketHelperFail = fmt.Sprintf("binding caveat %x is not the first 16 bytes of SHA-256(parent tail) %x", []byte(*bc), h[:16])
+				}
+			}
+		}
+		return []int64{b2i(err == nil)}
 	case "OVerify":
 		m, ok := e.Slots[o.S]
 		if !ok {
@@ -557,6 +623,7 @@ func (e *Env) Step(o Op) []int64 {
 				panic(err)
 			}
 		}
+		noteUndischarged(vm, ds)
 		set, err := vm.Verify(e.Key(o.K), ds, tr)
 		if err != nil {
 			return []int64{0}
